@@ -5,7 +5,7 @@
 (* the call f(args) on evaluated argument values; functions or argument    *)
 (* combinations no property speaks about give EAny.                        *)
 (***************************************************************************)
-EXTENDS XLOps, XLText
+EXTENDS XLOps, XLText, XLAgg
 
 ETruth(b) == [k |-> "truth", b |-> b]     \* TRUE/FALSE, or 1/0 (Python truth values)
 EAnyNum == [k |-> "anynum"]
@@ -192,6 +192,92 @@ MatchExpect(args) ==
           ELSE EAny
 
 (***************************************************************************)
+(* C11  aggregates                                                         *)
+(***************************************************************************)
+QsOf(xs) == [i \in 1..Len(xs) |-> QOf(xs[i])]
+LinSafe(qs) == Len(qs) <= 50 /\ Scalable(qs, 100) /\ \A i \in 1..Len(qs) : AbsI(qs[i].n) <= 10000 * qs[i].d
+SqSafe(qs) == Len(qs) <= 12 /\ Scalable(qs, 10) /\ \A i \in 1..Len(qs) : AbsI(qs[i].n) <= 300 * qs[i].d
+IntSafe(qs) == Len(qs) <= 12 /\ \A i \in 1..Len(qs) : qs[i].d = 1 /\ AbsI(qs[i].n) <= 100
+ProdSafe(qs) == Len(qs) <= 6 /\ \A i \in 1..Len(qs) : AbsI(qs[i].n) <= 30 /\ qs[i].d <= 2
+HarSafe(qs) == Len(qs) <= 5 /\ \A i \in 1..Len(qs) : qs[i].n >= 1 /\ qs[i].n <= 12 /\ qs[i].d <= 2
+ENumQ(q) == IF q.d > 100000 \/ AbsI(q.n) > 2000000000 THEN EAny ELSE EVal(NumQ(q))
+ErrorWins == {"SUM", "PRODUCT", "AVERAGE", "MIN", "MAX", "MEDIAN"}
+
+AggExpect(f, args) ==
+  LET xs == Flat(args) IN
+  IF xs = <<>> THEN EAny
+  ELSE IF f \in ErrorWins /\ NumsOrErrs(xs) /\ ~AllNums(xs) THEN EVal(FirstErr(xs))
+  ELSE IF ~AllNums(xs) THEN EAny
+  ELSE LET qs == QsOf(xs)
+           n == Len(qs)
+       IN CASE f = "SUM" -> IF LinSafe(qs) THEN ENumQ(QSumS(qs)) ELSE EAny
+            [] f = "COUNT" -> EVal(IntV(n))
+            [] f = "AVERAGE" -> IF LinSafe(qs) THEN ENumQ(QMean(qs)) ELSE EAny
+            [] f = "MIN" -> IF LinSafe(qs) THEN ENumQ(QMin(qs)) ELSE EAny
+            [] f = "MAX" -> IF LinSafe(qs) THEN ENumQ(QMax(qs)) ELSE EAny
+            [] f = "MEDIAN" -> IF LinSafe(qs) THEN ENumQ(QMedian(qs)) ELSE EAny
+            [] f \in {"MODE", "MODE.SNGL"} -> IF LinSafe(qs) /\ HasUniqueMode(qs) THEN ENumQ(QMode(qs)) ELSE EAny
+            [] f = "PRODUCT" -> IF ProdSafe(qs) THEN ENumQ(QProdS(qs)) ELSE EAny
+            [] f \in {"VAR", "VAR.S"} -> IF SqSafe(qs) /\ n >= 2 THEN ENumQ(QVarS(qs)) ELSE EAny
+            [] f \in {"VARP", "VAR.P"} -> IF SqSafe(qs) THEN ENumQ(QVarP(qs)) ELSE EAny
+            [] f = "AVEDEV" -> IF SqSafe(qs) THEN ENumQ(QAveDev(qs)) ELSE EAny
+            [] f = "HARMEAN" -> IF HarSafe(qs) THEN ENumQ(QHarMean(qs)) ELSE EAny
+
+LargeExpect(args) ==
+  IF Len(args) # 2 \/ ~IsArr(args[1]) \/ ~IsIntV(args[2]) THEN EAny
+  ELSE LET xs == Flat(<<args[1]>>) IN
+       IF xs = <<>> \/ ~AllNums(xs) \/ ~LinSafe(QsOf(xs)) THEN EAny
+       ELSE IF args[2].n < 1 \/ args[2].n > Len(xs) THEN EAny
+       ELSE ENumQ(QLarge(QsOf(xs), args[2].n))
+
+(* SLOPE(y1..yn, x1..xn): the flat calling convention of the library *)
+SlopeExpect(args) ==
+  IF Len(args) < 4 \/ Len(args) % 2 = 1 \/ ~AllNums(args) THEN EAny
+  ELSE LET h == Len(args) \div 2
+           ys == QsOf(SubSeq(args, 1, h))
+           xs == QsOf(SubSeq(args, h + 1, Len(args)))
+       IN IF ~SqSafe(ys) \/ ~IntSafe(xs) \/ h > 6 THEN EAny
+          ELSE IF ~SlopeDefined(ys, xs) THEN EAny
+          ELSE ENumQ(QSlope(ys, xs))
+
+(* selection by criteria; ranges are flat arrays of equal length *)
+FlatCells(a) == IF IsArr(a) THEN Flat(<<a>>) ELSE <<a>>
+(* pairs: Seq(<<cells, criterion value>>) ; returns [def, sel] *)
+Selected(n, pairs) ==
+  LET crs == [j \in 1..Len(pairs) |-> CritOf(pairs[j][2])]
+      ms == [i \in 1..n |-> [j \in 1..Len(pairs) |-> CritMatch(crs[j], pairs[j][1][i])]]
+  IN [def |-> \A i \in 1..n : \A j \in 1..Len(pairs) : ms[i][j].def,
+      sel |-> {i \in 1..n : \A j \in 1..Len(pairs) : ms[i][j].ok}]
+PickQs(cells, sel) == LET idx == SelectSeq([i \in 1..Len(cells) |-> i], LAMBDA i : i \in sel)
+                      IN [k \in 1..Len(idx) |-> QOf(cells[idx[k]])]
+
+IfsExpect2(f, vals, pairs) ==      \* vals: the cells aggregated; pairs as above
+  LET n == Len(vals) IN
+  IF n = 0 \/ n > 50 \/ \E j \in 1..Len(pairs) : Len(pairs[j][1]) # n THEN EAny
+  ELSE LET s == Selected(n, pairs) IN
+       IF ~s.def THEN EAny
+       ELSE IF f = "COUNTIF" THEN EVal(IntV(Cardinality(s.sel)))
+       ELSE IF \E i \in s.sel : vals[i].t # "num" THEN EAny
+       ELSE LET qs == PickQs(vals, s.sel) IN
+            IF ~LinSafe(qs) THEN EAny
+            ELSE IF qs = <<>> THEN (IF f \in {"AVERAGEIF", "AVERAGEIFS"} THEN EAnyErr ELSE EVal(IntV(0)))
+            ELSE CASE f \in {"SUMIF", "SUMIFS"} -> ENumQ(QSumS(qs))
+                   [] f \in {"AVERAGEIF", "AVERAGEIFS"} -> ENumQ(QMean(qs))
+                   [] f = "MAXIFS" -> ENumQ(QMax(qs))
+
+CriteriaExpect(f, args) ==
+  CASE f \in {"SUMIF", "COUNTIF"} ->
+         IF Len(args) # 2 THEN EAny
+         ELSE LET c == FlatCells(args[1]) IN IfsExpect2(f, c, << <<c, args[2]>> >>)
+    [] f = "AVERAGEIF" ->
+         IF Len(args) \notin {2, 3} THEN EAny
+         ELSE LET c == FlatCells(args[1]) IN IfsExpect2(f, IF Len(args) = 3 THEN FlatCells(args[3]) ELSE c, << <<c, args[2]>> >>)
+    [] f \in {"SUMIFS", "AVERAGEIFS", "MAXIFS"} ->
+         IF Len(args) < 3 \/ Len(args) % 2 = 0 THEN EAny
+         ELSE IfsExpect2(f, FlatCells(args[1]),
+                         [j \in 1..((Len(args) - 1) \div 2) |-> <<FlatCells(args[2 * j]), args[2 * j + 1]>>])
+
+(***************************************************************************)
 (* C15  text                                                               *)
 (***************************************************************************)
 ERel(name, s) == [k |-> "rel", name |-> name, s |-> s]      \* output related to the input text s
@@ -268,7 +354,11 @@ BuiltinExpect(f, args) ==
     [] f = "NA" -> IF args = <<>> THEN EVal(Err("#N/A")) ELSE EAny
     [] f = "TRUE" -> IF args = <<>> THEN EVal(Bool(TRUE)) ELSE EAny
     [] f = "FALSE" -> IF args = <<>> THEN EVal(Bool(FALSE)) ELSE EAny
-    [] f = "SUM" -> SumExpect(args)
+    [] f \in {"SUM", "COUNT", "AVERAGE", "MIN", "MAX", "MEDIAN", "MODE", "MODE.SNGL", "PRODUCT", "VAR", "VAR.S", "VARP", "VAR.P",
+               "AVEDEV", "HARMEAN"} -> AggExpect(f, args)
+    [] f = "LARGE" -> LargeExpect(args)
+    [] f = "SLOPE" -> SlopeExpect(args)
+    [] f \in {"SUMIF", "COUNTIF", "AVERAGEIF", "SUMIFS", "AVERAGEIFS", "MAXIFS"} -> CriteriaExpect(f, args)
     [] f = "ABS" -> AbsExpect(args)
     [] f \in {"LEFT", "RIGHT", "MID", "LEN", "UPPER", "LOWER", "PROPER", "TRIM", "CLEAN", "SUBSTITUTE"} -> TextExpect(f, args)
     [] f \in {"CONCATENATE", "CONCAT"} -> ConcatenateExpect(args)
